@@ -76,7 +76,7 @@ Section FailPhase.
 
   Definition J (N : list tnode) (pend : word -> Prop) : Prop :=
     shape N0 N /\
-    (exists r, nth_error N 0 = Some r /\ t_fail r = None) /\
+    (exists r, nth_error N 0 = Some r /\ nth_error N0 0 = Some r /\ t_fail r = None) /\
     (forall s k x, s <> [] -> nodeof N0 s = Some k -> nth_error N k = Some x -> ~ pend s -> done s x) /\
     (forall s k x, nodeof N0 s = Some k -> nth_error N k = Some x -> pend s -> initial s x).
 
@@ -94,7 +94,9 @@ Section FailPhase.
     exists N1, set_fail (S (length N)) (t_fail xc) N (a, k') = Ok N1 /\
       J N1 (fun s => pend s /\ s <> c ++ [a]) /\ (forall k, k <> k' -> nth_error N1 k = nth_error N k).
   Proof.
-    intros [Hsh [Hr [J1 J4]]] Hc Hkc Exc Hnc Hshallow Hk' Hpend.
+    intros [Hsh [Hr0 [J1 J4]]] Hc Hkc Exc Hnc Hshallow Hk' Hpend.
+    assert (Hr : exists r, nth_error N 0 = Some r /\ t_fail r = None).
+    { destruct Hr0 as [r [E1 [_ E2]]]. exists r. split; assumption. }
     assert (Hno : forall s, nodeof N s = nodeof N0 s) by (intro s; apply shape_nodeof; exact Hsh).
     assert (HVN : forall s k, nodeof N s = Some k -> k < length N).
     { intros s k H. rewrite Hno in H. apply HV in H. destruct Hsh as [HL _]. lia. }
@@ -143,7 +145,7 @@ Section FailPhase.
       assert (Hother : forall s k, nodeof N0 s = Some k -> s <> c ++ [a] -> k <> k').
       { intros s k Hk Hne Ek. subst k. apply Hne. eapply HI; eassumption. }
       split; [eapply shape_upd; [exact Hsh|exact Esd|reflexivity]|]. split.
-      { rewrite nth_error_upd_other by (intro Ez; apply Hk'0; symmetry; exact Ez). exact Hr. }
+      { rewrite nth_error_upd_other by (intro Ez; apply Hk'0; symmetry; exact Ez). exact Hr0. }
       split.
       - intros s k x Hsne Hk Ex Hnp.
         destruct (list_eq_dec Nat.eq_dec s (c ++ [a])) as [->|Hne].
@@ -309,15 +311,6 @@ Section FailPhase.
   Lemma pprefix_length q s : pprefix q s -> length q < length s.
   Proof. intros [r [Hr ->]]. rewrite app_length. destruct r; [congruence|simpl; lia]. Qed.
 
-  Lemma NoDup_app_intro {A} (l1 l2 : list A) :
-    NoDup l1 -> NoDup l2 -> (forall x, In x l1 -> In x l2 -> False) -> NoDup (l1 ++ l2).
-  Proof.
-    intros H1 H2 Hd. induction H1 as [|x l1 Hnot H1 IH]; [exact H2|]. simpl. constructor.
-    - intro Hin. apply in_app_or in Hin. destruct Hin as [Hin|Hin]; [contradiction|].
-      apply (Hd x); [left; reflexivity|exact Hin].
-    - apply IH. intros y Hy1 Hy2. apply (Hd y); [right; exact Hy1|exact Hy2].
-  Qed.
-
   Lemma fail_bfs_ok : forall fuel N queue qs U, binv N queue qs U -> length U < fuel ->
     exists N', fail_bfs fuel N queue = Ok N' /\ J N' (fun _ => False).
   Proof.
@@ -456,5 +449,72 @@ Section FailPhase.
                    apply negb_true_iff, Nat.eqb_neq. exact Hd.
         * pose proof (filter_remove_length kc U HkcU). unfold U'. lia.
         * exists N'. split; [exact E'|exact HJ'].
+  Qed.
+
+  (* ---------- the whole phase, from the freshly built trie ---------- *)
+  Hypothesis Hinit : forall s k x, nodeof N0 s = Some k -> nth_error N0 k = Some x ->
+    t_fail x = None /\ (t_out x <> [] <-> In s P).
+
+  Theorem fail_phase_ok root : nth_error N0 0 = Some root ->
+    exists N', fail_bfs (S (length N0)) N0 (map snd (t_succ root)) = Ok N' /\ J N' (fun _ => False).
+  Proof.
+    intro Er.
+    set (qs0 := map (fun e : nat * nat => [fst e]) (t_succ root)).
+    assert (Hkeys : NoDup (map fst (t_succ root))) by (eapply HK; exact Er).
+    assert (Hchild : forall a k', In (a, k') (t_succ root) <-> nodeof N0 [a] = Some k').
+    { intros a k'. unfold nodeof. simpl. unfold edge. rewrite Er. split.
+      - intro H. rewrite (assoc_NoDup a k' _ Hkeys H). reflexivity.
+      - destruct (assoc a (t_succ root)) as [j|] eqn:Ea; [|discriminate]. intro H. inversion H; subst. apply assoc_In. exact Ea. }
+    assert (Hnil : nodeof N0 [] = Some 0) by reflexivity.
+    apply (fail_bfs_ok (S (length N0)) N0 (map snd (t_succ root)) qs0 (seq 1 (length N0 - 1))).
+    - split; [|split; [|split; [|split; [|split; [|split; [|split]]]]]].
+      + (* J *)
+        split; [apply shape_refl|]. split; [exists root; split; [exact Er|split; [exact Er|exact (proj1 (Hinit [] 0 root Hnil Er))]]|]. split.
+        * intros s k x Hs Hk Ex Hnp. destruct (Hinit s k x Hk Ex) as [Hf Ho].
+          destruct s as [|a r]; [congruence|]. destruct r as [|b r'].
+          -- split.
+             ++ unfold failspec. rewrite Hf. intros u' [_ Hl] _. simpl in Hl. destruct u'; [reflexivity|simpl in Hl; lia].
+             ++ rewrite Ho. split.
+                ** intro Hin. exists [a]. split; [exact Hin|apply has_suffix_refl].
+                ** intros [p [Hp Hsf]]. pose proof (HPne p Hp) as Hne. pose proof (has_suffix_length p _ Hsf) as Hl. simpl in Hl.
+                   destruct Hsf as [u Eu]. destruct u as [|u0 u']; [simpl in Eu; subst p; exact Hp|].
+                   exfalso. apply (f_equal (@length nat)) in Eu. simpl in Eu. rewrite app_length in Eu.
+                   destruct p; [congruence|simpl in Eu; lia].
+          -- exfalso. apply Hnp. exists [a]. split.
+             ++ unfold qs0. assert (Hin : inT N0 [a]).
+                { apply (inT_prefix N0 [a] (b :: r')). unfold inT. simpl. simpl in Hk. congruence. }
+                unfold inT in Hin. destruct (nodeof N0 [a]) as [k'|] eqn:Ek; [|congruence].
+                apply Hchild in Ek. apply in_map_iff. exists (a, k'). split; [reflexivity|exact Ek].
+             ++ exists (b :: r'). split; [discriminate|reflexivity].
+        * intros s k x Hk Ex _. exact (Hinit s k x Hk Ex).
+      + unfold qs0. clear -Hchild.
+        assert (H : forall l, (forall a k', In (a, k') l -> nodeof N0 [a] = Some k') ->
+                  Forall2 (fun k q => nodeof N0 q = Some k) (map snd l) (map (fun e : nat * nat => [fst e]) l)).
+        { induction l as [|[a k'] l IHl]; intro H; simpl; constructor.
+          - apply H. left. reflexivity.
+          - apply IHl. intros a2 k2 Hin. apply H. right. exact Hin. }
+        apply H. intros a k' Hin. apply Hchild. exact Hin.
+      + intros q Hq. unfold qs0 in Hq. apply in_map_iff in Hq. destruct Hq as [e [<- _]]. discriminate.
+      + exists 1, qs0, []. split; [symmetry; apply app_nil_r|]. split; [|intros q []].
+        intros q Hq. unfold qs0 in Hq. apply in_map_iff in Hq. destruct Hq as [e [<- _]]. reflexivity.
+      + apply seq_NoDup.
+      + intros k Hk. apply in_map_iff in Hk. destruct Hk as [[a k2] [Ek Hin]]. simpl in Ek. subst k2.
+        apply Hchild in Hin. apply in_seq. pose proof (HV _ _ Hin).
+        assert (k <> 0). { intros ->. pose proof (HI _ _ _ Hin Hnil). discriminate. } lia.
+      + assert (H : forall l, NoDup (map fst l) -> (forall a k', In (a, k') l -> nodeof N0 [a] = Some k') -> NoDup (map snd l)).
+        { induction l as [|[a k'] l IHl]; intros Hnd Hl; simpl; constructor.
+          - intro Hin. apply in_map_iff in Hin. destruct Hin as [[a2 k2] [Ek Hin]]. simpl in Ek. subst k2.
+            pose proof (Hl a k' (or_introl eq_refl)) as H1. pose proof (Hl a2 k' (or_intror Hin)) as H2.
+            pose proof (HI _ _ _ H1 H2) as Ee. inversion Ee; subst a2.
+            inversion Hnd as [|? ? Hnot _]; subst. apply Hnot. apply in_map_iff. exists (a, k'). split; [reflexivity|exact Hin].
+          - inversion Hnd; subst. apply IHl; [assumption|]. intros a2 k2 Hin. apply Hl. right. exact Hin. }
+        apply H; [exact Hkeys|]. intros a k' Hin. apply Hchild. exact Hin.
+      + intros s a k' ks Hs Hk' Hks Hor. exfalso. destruct Hor as [Hin|Hnot].
+        * apply in_map_iff in Hin. destruct Hin as [[a2 k2] [Ek Hin]]. simpl in Ek. subst k2.
+          apply Hchild in Hin. pose proof (HI _ _ _ Hk' Hin) as Ee.
+          destruct s as [|s0 s']; [congruence|]. destruct s'; discriminate.
+        * apply Hnot. apply in_seq. pose proof (HV _ _ Hk').
+          assert (k' <> 0). { intros ->. pose proof (HI _ _ _ Hk' Hnil) as Ee. destruct s; discriminate. } lia.
+    - rewrite seq_length. pose proof (HV _ _ Hnil). lia.
   Qed.
 End FailPhase.
